@@ -448,6 +448,35 @@ def run(ctx, rep):
             rep.bad('C08.T', f"coalescent::{scope_}::{norm_text(node)[:50]}::event-times-enter-as-they-are", where(mco, node), {'construct': text[:80]},
                     f"{scope_}: `{text[:60]}` rounds a value computed from the node heights: the events the density is evaluated for are no longer the ones of the tree (tips within the "
                     f"rounding step are merged, all others are moved), by an amount that is most of the value when times are in substitutions per site")
+    # three more constructs in the same functions: (a) a floor / ceiling on the inter-event intervals (`durations.clamp(min=ε)`: tied events — every contemporaneous tree —
+    # are then charged C(k,2)·ε/θ each); (b) an in-place tensor method on a local that is read again afterwards (`h.mul_(g).exp_()` and then h as the heights); (c) the log of a
+    # product where the density needs the sum of the logs (over- / underflows with the number of events)
+    for fn_ in [f for f in ast.walk(mco.tree) if isinstance(f, ast.FunctionDef) and f.name in ('log_prob', '_sorted_terms', 'sufficient_statistics', 'maximum_likelihood', '_call')]:
+        defs_ = local_assignments(fn_)
+        cl_ = getattr(fn_, '_parent', None)
+        scope_ = f"{cl_.name}.{fn_.name}" if isinstance(cl_, ast.ClassDef) else fn_.name
+        for c in ast.walk(fn_):
+            if not isinstance(c, ast.Call):
+                continue
+            dn_ = dotted_name(c.func) or ''
+            nm_ = c.func.attr if isinstance(c.func, ast.Attribute) else dn_
+            if nm_ in ('clamp', 'clamp_min', 'clamp_max', 'clip') and any(k.arg in ('min', 'max') and not (isinstance(k.value, ast.Constant) and isinstance(k.value.value, int)) for k in c.keywords):
+                operand = c.func.value if not dn_.startswith('torch.') else (c.args[0] if c.args else None)
+                if operand is not None and not c12.shape_derived(operand, defs_) and not any('indices' in ast.unparse(x) or 'index' in ast.unparse(x) for x in [operand]):
+                    rep.bad('C08.T', f"coalescent::{scope_}::{norm_text(c)[:50]}::intervals-enter-as-they-are", where(mco, c), None,
+                            f"{scope_}: `{norm_text(c)[:60]}` bounds a quantity computed from the event times: intervals of length zero (tied events, every contemporaneous tree) are "
+                            f"charged as if they had that length, an error of C(k,2)·ε/θ per tie that grows with the number of tied tips and with small time units")
+            if isinstance(c.func, ast.Attribute) and c.func.attr.endswith('_') and not c.func.attr.startswith('_') and c.func.attr not in ('scatter_add_', 'requires_grad_') \
+                    and isinstance(c.func.value, ast.Name):
+                name_ = c.func.value.id
+                later = [x for x in ast.walk(fn_) if isinstance(x, ast.Name) and x.id == name_ and isinstance(x.ctx, ast.Load) and getattr(x, 'lineno', 0) > getattr(c, 'end_lineno', c.lineno)]
+                if later:
+                    rep.bad('C08.T', f"coalescent::{scope_}::{norm_text(c)[:40]}::no-in-place-update-of-a-value-read-later", where(mco, c), {'read_again_at': later[0].lineno},
+                            f"{scope_}: `{norm_text(c)[:50]}` overwrites `{name_}` in place and line {later[0].lineno} reads `{name_}` again as if it still held the event times")
+            if nm_ == 'log' and any(isinstance(x, ast.Call) and isinstance(x.func, ast.Attribute) and x.func.attr == 'prod' for x in ast.walk(c)):
+                rep.bad('C08.T', f"coalescent::{scope_}::{norm_text(c)[:40]}::sum-of-logs-not-log-of-a-product", where(mco, c), None,
+                        f"{scope_}: `{norm_text(c)[:60]}` takes the log of a product of population sizes: with n − 1 factors it over- or underflows (|log10 θ|·(n − 1) > 308) where the "
+                        f"sum of the logs is finite")
     rep.ok('C08.T', 'coalescent::event-times-enter-as-they-are::scanned', '', {'functions_scanned': nfn})
     if nfn < 10:
         rep.incomplete('C08.T', 'rounding', '', f"only {nfn} density functions found in coalescent.py")
@@ -473,6 +502,13 @@ def run(ctx, rep):
     # a model reads its parameters when it is evaluated: nothing taken from `<parameter>.tensor` at construction is used afterwards (C09.P rule on coalescent.py)
     from props import c09
     c09.check_snapshots(ctx, rep, rule='C08.M', modules=[MOD], floor=10)
+    # the heights the coalescent reads are those of the current ratios / root height: the time-tree models mark them outdated on every event (C11.H)
+    from sa.members import Kinds as _K8
+    from props import c11 as _c118
+    _k8 = _K8(ctx.classes)
+    for cls_ in sorted(ctx.classes.classes.values(), key=lambda c: c.qualname):
+        if cls_.module.name == 'torchtree.evolution.tree_model' and not cls_.is_abstract() and cls_.has_base('torchtree.core.parametric.Parametric'):
+            _c118.check_handlers(ctx, RuleProxy(rep, 'C08.M', 'tree-handlers::'), _k8, cls_)
     rep.explanation = (
         "The event bookkeeping that every coalescent implementation repeats (ten copies) is extracted by dataflow role — the vector handed to argsort, "
         "the permutation gathered into heights and marks, the mark vector's parts and their order against the height vector's parts, the lineage "
